@@ -1566,6 +1566,14 @@ func (run *simRun) settleCheck() {
 		if why == "no_leader" && run.electionBlockedByUncommittedConfig() {
 			why = "no_leader:uncommitted_config_disables_up_to_date_nodes"
 		}
+		if why == "no_leader" && run.votersNotRunning() {
+			// the premise of the property (a majority of the voters is running) does not hold: a
+			// voter has shut itself down, for example as removed while replaying an old removal
+			// although it was added again later. Nothing is concluded from such a run.
+			run.reach("no_leader_but_majority_of_voters_not_running")
+			run.beginShutdown()
+			return
+		}
 		if run.prof.DiskErr > 0 {
 			// liveness is not demanded of runs with injected storage errors: end the run
 			run.reach("no_convergence_under_disk_errors")
@@ -1576,6 +1584,32 @@ func (run *simRun) settleCheck() {
 		return
 	}
 	run.sim.After(int64(run.cfg.HB), "settle-check", run.settleCheck)
+}
+
+// votersNotRunning: for every node that may campaign, fewer than a quorum of the voters of
+// its own latest configuration are running (Serve has not returned).
+func (run *simRun) votersNotRunning() bool {
+	campaigners := 0
+	for _, ni := range run.liveIncs() {
+		r := ni.r
+		if ni.exited || !r.configs.Latest.isVoter(r.nid) {
+			continue
+		}
+		campaigners++
+		running := 0
+		for id, n := range r.configs.Latest.Nodes {
+			if !n.Voter {
+				continue
+			}
+			if o := run.node(id); o != nil && o.inc.live() && !o.inc.exited {
+				running++
+			}
+		}
+		if running >= r.configs.Latest.quorum() {
+			return false
+		}
+	}
+	return campaigners > 0 || len(run.liveIncs()) > 0
 }
 
 // electionBlockedByUncommittedConfig recognises one specific stuck state: some
